@@ -29,15 +29,16 @@ ASSUMPTIONS = [
     "the hg and docker references are this harness' reading of hgignore(5) and the Docker build documentation for the generated subset",
 ]
 
-VOCAB_F = ["a.log", "a.logx", "keep.log", "x.tmp", "abc", "abbc", "ac", "b.log", "test.txt", "notes.md", "abc.log", "Build.txt"]
-VOCAB_D = ["build", "src", "docs", "lib", "abc", "logs", "tmp"]
+VOCAB_F = ["a.log", "a.logx", "keep.log", "x.tmp", "abc", "abbc", "ac", "b.log", "test.txt", "notes.md", "abc.log", "Build.txt",
+           "x", "x\\y.txt"]          # a backslash is an ordinary character of a name
+VOCAB_D = ["build", "src", "docs", "lib", "abc", "logs", "tmp", "we\\ird"]
 TOOLS = {"git": (".gitignore", "gitignore", "git", "nogitignore"),
          "hg": (".hgignore", "hgignore", "hg", "nohgignore"),
          "docker": (".dockerignore", "dockerignore", "dock", "nodockerignore")}
 
 GLOB_KINDS = ["name", "ext", "dir-slash", "dir-ext", "starstar", "qmark"]
 GLOB_PATTERNS = {
-    "name": ["build", "abc", "keep.log", "src", "logs", "x.tmp"],
+    "name": ["build", "abc", "keep.log", "src", "logs", "x.tmp", "x"],
     "ext": ["*.log", "*.tmp", "*.md", "a.*"],
     "dir-slash": ["build/", "docs/", "abc/", "src/lib/"],
     "dir-ext": ["src/*.log", "build/*.tmp", "docs/*.md", "src/lib/*.log"],
@@ -74,7 +75,7 @@ def strategy_(draw, tier, tool=None):
         syntax = draw(st.sampled_from(["glob", "glob", "regexp", "default-regexp"]))
         if syntax != "default-regexp":
             lines.append("syntax: " + syntax)
-        kinds = [k for k in GLOB_KINDS if k != "dir-slash"]
+        kinds = list(GLOB_KINDS)     # `dir/` is `dir` to Mercurial (patterns are normalised)
         k0 = draw(st.sampled_from(kinds))
         for i in range(nlines):
             extra = draw(st.sampled_from(["", "", "", "#", "blank", "switch"]))
@@ -89,7 +90,7 @@ def strategy_(draw, tier, tool=None):
                 k = k0 if single else draw(st.sampled_from(kinds))
                 lines.append(draw(st.sampled_from(pool[k])))
             else:
-                lines.append(draw(st.sampled_from(HG_REGEXPS + ["^" + d for d in pdirs[:3]])))
+                lines.append(draw(st.sampled_from(HG_REGEXPS + ["^" + re.sub(r"([\\\\.\[\](){}+*?^$|])", r"\\\1", d) for d in pdirs[:3]])))
     else:
         k0 = draw(st.sampled_from(GLOB_KINDS))
         for i in range(nlines):
@@ -120,15 +121,25 @@ def several_roots_(draw, tier):
     tool = draw(st.sampled_from(["git", "hg", "docker"]))
     a = draw(strategy_(tier, tool))
     b = draw(strategy_(tier, tool))
-    shape = draw(st.sampled_from(["two-repos", "two-repos", "two-repos-abs", "same-repo-twice", "repo-and-its-subdir"]))
+    shape = draw(st.sampled_from(["two-repos", "two-repos", "two-repos-abs", "same-repo-twice", "repo-and-its-subdir",
+                                  "nested-contexts", "nested-contexts"]))
     return {"kind": "several-roots", "tool": tool, "shape": shape, "A": {"tree": a["tree"], "lines": a["lines"], "sub": a["sub"]},
             "B": {"tree": b["tree"], "lines": b["lines"]}, "swap": draw(st.booleans()),
             "switch": draw(st.sampled_from(["option", "option", "alias", "config", "first-only", "second-only"])),
             "mode": draw(st.sampled_from(["", "", "dfs"]))}
 
 
+@st.composite
+def root_above_(draw, tier):
+    """git: the search root is the directory ABOVE the repository (`fselect ... from ~/projects gitignore`)."""
+    a = draw(strategy_(tier, "git"))
+    return {"kind": "root-above", "tree": a["tree"], "lines": a["lines"], "mode": draw(st.sampled_from(["", "", "bfs", "dfs"])),
+            "depth": draw(st.sampled_from([1, 1, 2]))}
+
+
 def strategy(tier):
-    return st.sampled_from(range(5)).flatmap(lambda i: several_roots_(tier) if i == 0 else strategy_(tier))
+    return st.sampled_from(range(10)).flatmap(
+        lambda i: several_roots_(tier) if i in (0, 1) else root_above_(tier) if i == 2 else strategy_(tier))
 
 
 # ---------------------------------------------------------------- reference matchers
@@ -167,7 +178,7 @@ def hg_ignored(lines, rel):
             syntax = ln.split(":", 1)[1].strip()
             continue
         if syntax == "glob":
-            rx = "(?:|.*/)" + glob_to_re(ln, False) + "(?:/|$)"
+            rx = "(?:|.*/)" + glob_to_re(ln.rstrip("/") if len(ln) > 1 else ln, False) + "(?:/|$)"
         else:
             rx = ln if ln.startswith("^") else ".*" + ln
         if re.match(rx, rel):
@@ -259,7 +270,13 @@ def check_several(case):
         _mkrepo(os.path.join(cdir, "one"), tool, case["A"]["tree"], case["A"]["lines"])
         _mkrepo(os.path.join(cdir, "two"), tool, case["B"]["tree"], case["B"]["lines"])
         shape = case["shape"]
-        if shape == "two-repos":
+        if shape == "nested-contexts" and tool == "git":
+            shape = "two-repos"          # nested git repositories are not generated
+        if shape == "nested-contexts":
+            # an inner context with its own ignore file inside the outer one: each root is judged by the nearest file
+            _mkrepo(os.path.join(cdir, "one", "inner2"), tool, case["B"]["tree"], case["B"]["lines"])
+            roots = ["one/" + case["A"]["sub"] if case["A"].get("sub") else "one", "one/inner2"]
+        elif shape == "two-repos":
             roots = ["one", "two"]
         elif shape == "two-repos-abs":
             roots = [cdir + "/one", "two"]
@@ -294,9 +311,9 @@ def check_several(case):
             want += collections.Counter(singles[1])
         else:
             want = None   # the same directory twice: whether the second visit lists anything is C18's business
-        if want is not None and shape == "repo-and-its-subdir" and roots[0].startswith(roots[1] + "/") or \
-                want is not None and shape == "repo-and-its-subdir" and roots[1].startswith(roots[0] + "/"):
-            want = None   # nested roots: entries visited once or twice, not asserted here
+        r0, r1 = (os.path.realpath(os.path.join(cdir, r)) for r in roots)
+        if r0.startswith(r1 + "/") or r1.startswith(r0 + "/"):
+            want = None   # nested roots: entries are visited once or twice, not asserted here
         got = collections.Counter(both)
         if want is not None and got != want:
             under = sorted((got - want).elements())[:6]
@@ -323,9 +340,57 @@ def check_several(case):
     return out
 
 
+def check_above(case):
+    out = Outcome()
+    cdir = runner.new_case_dir()
+    try:
+        top = os.path.join(cdir, "top")
+        os.mkdir(top)
+        holder = top
+        for i in range(case["depth"] - 1):
+            holder = os.path.join(holder, "mid%d" % i)
+            os.mkdir(holder)
+        repo = os.path.join(holder, "repo")
+        _mkrepo(repo, "git", case["tree"], case["lines"])
+        os.mkdir(os.path.join(top, "other"))
+        for n in ("o.log", "a.log", "keep.txt"):
+            open(os.path.join(top, "other", n), "w").close()
+        mode = (" " + case["mode"]) if case["mode"] else ""
+        U, q0 = listing(out, top, ".", mode, None, "C20/git/root-above")
+        got, q = listing(out, top, ".", " gitignore" + mode, None, "C20/git/root-above")
+        if U is None or got is None:
+            return out
+        nogit = lambda ps: [p for p in ps if "/.git/" not in p + "/"]
+        U, got = nogit(U), nogit(got)
+        prefix = "./" + os.path.relpath(repo, top) + "/"
+        inside = {p: p[len(prefix):] for p in U if p.startswith(prefix)}
+        ask = [r + "/" if os.path.isdir(os.path.join(repo, r)) and not os.path.islink(os.path.join(repo, r)) else r for r in inside.values()]
+        ign = {a.rstrip("/") for a in git_ignored_set(repo, ask)}
+        def omitted(r):
+            parts = r.split("/")
+            return any("/".join(parts[:i]) in ign for i in range(1, len(parts) + 1))
+        want = [p for p in U if p not in inside or not omitted(inside[p])]
+        cw, cg = collections.Counter(want), collections.Counter(got)
+        if cw != cg:
+            under = sorted((cg - cw).elements())
+            over = sorted((cw - cg).elements())
+            neg = any(ln.startswith("!") for ln in case["lines"])
+            if not (neg and over):     # libgit2's negation quirks (K01/K03) are judged by the main check only
+                out.add("C20/git/root-above/%s" % ("under-ignore" if under else "over-ignore"), query=q, lines=case["lines"],
+                        wrongly_listed=under[:6], wrongly_ignored=over[:6], mode=case["mode"] or "bfs")
+        out.nontrivial = len(want) < len(U) and any("/" in r for r in inside.values() if omitted(r))
+        out.classes = ["root-above-repository", "mode=" + (case["mode"] or "default")]
+        out.sample = {"query": q, "lines": case["lines"], "listed": len(got), "unfiltered": len(U)}
+    finally:
+        runner.rmtree(cdir)
+    return out
+
+
 def check(case):
     if case.get("kind") == "several-roots":
         return check_several(case)
+    if case.get("kind") == "root-above":
+        return check_above(case)
     out = Outcome()
     cdir = runner.new_case_dir()
     repo = os.path.join(cdir, "repo")
